@@ -233,6 +233,69 @@ func TestC07(t *testing.T) {
 		}
 		synctest.Test(t, func(t *testing.T) { c07Run(t, run, sc) })
 	}
+	for k := 0; k < run.N(32, 800); k++ {
+		desc := map[string]any{"idx": k, "kind": "resume-then-pause-at-once"}
+		if !run.Mine(n+k, desc) {
+			continue
+		}
+		synctest.Test(t, func(t *testing.T) { c07ResumePause(t, run, k, run.Rand(n+k)) })
+	}
+}
+
+// c07ResumePause: requests are held; the operator resumes and pauses again at once (the second
+// command is issued the moment the first has returned, before the woken requests have run). A held
+// request is then either forwarded by the resume or held on by the new pause and forwarded by the
+// final resume; the service was never stopped and no max-pause has expired, so nothing else.
+func c07ResumePause(t *testing.T, run *Run, idx int, rng *rand.Rand) {
+	w := NewWorld(t, WorldOpt{})
+	defer w.Close()
+	run.Eval()
+	const svc = "svc"
+	nt := 1 + rng.IntN(2)
+	var names []string
+	for i := 0; i < nt; i++ {
+		names = append(names, fmt.Sprintf("rp%d-t%d:80", idx%5, i))
+		w.AddTarget(names[i], nil)
+	}
+	if c := w.Deploy(svc, names, DefSO, DefTO, 5*time.Second, time.Second); c.Err != "" {
+		run.Inconclusive("setup failed: %s", c.Err)
+		return
+	}
+	nreq := 1 + rng.IntN(40)
+	w.At(time.Second, func() { w.Pause(svc, time.Second, 100*time.Second) })
+	for k := 0; k < nreq; k++ {
+		w.GoReq(1500*time.Millisecond+time.Duration(rng.IntN(400))*time.Millisecond+OffArrival, Req{ID: fmt.Sprintf("h%d", k), Host: "c07.example", Path: "/x"})
+	}
+	rounds := 1 + rng.IntN(3)
+	T := 3 * time.Second
+	w.At(T, func() {
+		for i := 0; i < rounds; i++ {
+			w.Resume(svc)
+			w.Pause(svc, time.Second, 100*time.Second)
+		}
+	})
+	tFinal := T + 2*time.Second
+	w.At(tFinal, func() { w.Resume(svc) })
+	w.Wait()
+	for _, c := range w.Cmds {
+		if c.Panic != "" || c.Err != "" {
+			run.Violate("command-failed:"+c.Name, fmt.Sprintf("command %s failed: %s %s", c.Name, c.Err, c.Panic), map[string]any{"idx": idx}, func() []string { return w.Trace(200) })
+			return
+		}
+	}
+	again := 0
+	for _, r := range w.RespLog() {
+		okAt := near(r.Done, T) || near(r.Done, tFinal)
+		if r.Status != 200 || r.Target == "" || !okAt {
+			run.Violate(fmt.Sprintf("held-request-lost:resume-then-pause:got-%d", r.Status), fmt.Sprintf("request %s was held (pause at 1s, max-pause 100s); resume and pause were issued back to back %d times at %v, the final resume at %v: it got status=%d target=%q at %v (the service was never stopped)", r.ID, rounds, T, tFinal, r.Status, r.Target, r.Done), map[string]any{"idx": idx, "requests": nreq, "rounds": rounds}, func() []string { return w.Trace(200) })
+			return
+		}
+		if near(r.Done, tFinal) {
+			again++
+		}
+	}
+	run.Count("held_again_by_the_second_pause", again)
+	run.Class(fmt.Sprintf("resume-pause|rounds%d|held-again=%v", rounds, again > 0))
 }
 
 // tlSlowFirstProbe makes the first probe of each target take d (the later ones answer at once).
